@@ -70,3 +70,8 @@ ENTRIES += [
     N('robots-hop-inspected', "            while not session.done():\n                wpull.util.truncate_file(file.name)\n",
       "            while not session.done():\n                if session.next_request().url_info.hostname != url_info.hostname:\n                    break\n\n                wpull.util.truncate_file(file.name)\n", 'wpull/protocol/http/robots.py'),
 ]
+
+ENTRIES += [
+    B('regress-hostnames-of-every-queued-url', "            hostnames = (URLInfo.parse(url).hostname for url in added_urls\n                         if url in start_urls)", "            hostnames = (URLInfo.parse(url).hostname for url in added_urls)", 'C02-D5', 'wpull/database/sqltable.py'),
+    N('hostnames-start-test-inline', "            hostnames = (URLInfo.parse(url).hostname for url in added_urls\n                         if url in start_urls)", "            roots = start_urls\n            hostnames = [URLInfo.parse(url).hostname for url in added_urls if url in roots]", 'wpull/database/sqltable.py'),
+]
